@@ -229,6 +229,7 @@ def describe(tier):
             + ("{l, z, w} x profile {flat, step, spike} x outlier {10, 0, 3, 1}" if t else "{l, z}, flat, outlier 10; (step, outlier 10 / off), (spike, outlier 10 / 3 / 1) and 6 chromosome contexts on 5 edge patterns"),
             "schedules": "2 and 3 arm tasks x workers {1, 2}" + (", 4 arm tasks x 1 worker" if t else "") + ", all choice sequences",
             "pools": "processes 2, 3, 16 (and processes=16 passed to the HMM methods)",
+            "lineage": "400-bin two-chromosome table x gap {no, 1 Mb} x first method {none, haar, hmm} x derivation {same object, copy, 200 kb hole opened by a mask, p arm only, q arm only, drop_low_coverage} x 5 methods for the second call",
         },
         "alphabet": {"kinds": KINDS, "layouts": list(LAYOUTS), "genes": list(GENES), "positions": list(POSITIONS), "contexts": list(CONTEXTS), "methods": list(METHODS)},
         "assumptions": [
@@ -292,6 +293,11 @@ def cases(tier):
     for profile in ("flat", "step"):
         for drops in ([], ["first"], ["last"], ["gap-right"]):
             yield {"check": "arms", **arms_spec(400, "two", profile, drops, "z", 10)}
+    # lineages: a table object is segmented, an object derived from it (or the object itself) is segmented again
+    for gap in (False, True):
+        for first in LINEAGE_FIRST:
+            for derive in LINEAGE_DERIVATIONS:
+                yield {"check": "lineage", "table": arms_spec(400, gap, "step", ["first", "interior"], "l", 10), "first": first, "derive": derive}
     # real pools
     for spec in pool_tables(t):
         yield {"check": "pools", "table": spec}
@@ -356,6 +362,8 @@ def run(case, ctx):
         run_words(case, ctx)
     elif k == "arms":
         run_arms(case, ctx)
+    elif k == "lineage":
+        run_lineage(case, ctx)
     elif k == "pools":
         run_pools(case, ctx)
     elif k == "schedules":
@@ -543,6 +551,57 @@ def run_arms(case, ctx):
     ctx.stratum(f"profile-{case['profile']}-outlier{case['outlier']}")
 
 
+LINEAGE_FIRST = ("none", "haar", "hmm")
+LINEAGE_DERIVATIONS = ("same-object", "copy", "hole", "p-arm", "q-arm", "drop_low_coverage")
+
+
+def run_lineage(case, ctx):
+    """Segment a table object with one method, then segment the object itself or an object derived from it (copy; a mask that opens
+    a 200 kb hole inside an arm, keeps only the p arm or only the q arm of the two-arm chromosome; drop_low_coverage) with every
+    method: the second answer is judged by the same clauses on the derived table's own bins."""
+    rows = arms_table(case["table"])
+    cfg = arms_config(case["table"])
+    cna = make_cna(rows)
+    first = ctx.call(segmentation.do_segmentation, cna, case["first"], skip_low=cfg["skip_low"], skip_outliers=cfg["skip_outliers"], min_weight=cfg["min_weight"])
+    judge(ctx, rows, case["first"], cfg, first, {"lineage": "first call"})
+    n, gap_at = case["table"]["n"], GAP_AT[case["table"]["n"]]
+    pos = {}  # row number within the primary chromosome
+    k = 0
+    for i, r in enumerate(rows):
+        if r[0] == rows[0][0]:
+            pos[i] = k
+            k += 1
+    d = case["derive"]
+    if d in ("same-object", "copy"):
+        keep = [True] * len(rows)
+    elif d == "hole":
+        keep = [not (i in pos and 230 <= pos[i] < 270) for i in range(len(rows))]
+    elif d == "p-arm":
+        keep = [not (i in pos and pos[i] >= gap_at) for i in range(len(rows))]
+    elif d == "q-arm":
+        keep = [not (i in pos and pos[i] < gap_at) for i in range(len(rows))]
+    else:
+        keep = [not (r[4] < -15 or r[5] == 0) for r in rows]
+    if d == "same-object":
+        derived = cna
+    elif d == "copy":
+        derived = cna.copy()
+    elif d == "drop_low_coverage":
+        derived = cna.drop_low_coverage()
+    else:
+        derived = cna[np.asarray(keep)]
+    drows = [r for r, kp in zip(rows, keep) if kp]
+    if len(derived) != len(drows):
+        raise AssertionError("harness: derived table has %d rows, expected %d" % (len(derived), len(drows)))
+    for method in METHODS:
+        obj = derived if d == "same-object" else derived.copy()  # each second call sees the lineage of the first call only
+        res = ctx.call(segmentation.do_segmentation, obj, method, skip_low=cfg["skip_low"], skip_outliers=cfg["skip_outliers"], min_weight=cfg["min_weight"])
+        judge(ctx, drows, method, cfg, res, {"lineage": f"after {case['first']} on the parent object, derived by {d}"})
+        ctx.state(("lineage", case["table"]["gap"], case["first"], d, method), nontrivial=d != "copy")
+    ctx.stratum(f"lineage-{d}")
+    ctx.sample("lineage", {k: v for k, v in case.items() if k != "check"})
+
+
 def run_pools(case, ctx):
     rows, cfg = table_of(case["table"])
     tdig = digest(rows)
@@ -627,7 +686,8 @@ MANIFEST = {
     "choice of <= 2 filtered bins among first / second / last / last-but-one / both sides of the gap / interior, step and spike "
     "profiles, outlier factors, 1-6 chromosomes. Each result is judged clause by clause by a pure-Python model (survivor set, arm "
     "split, sorted / disjoint / within span, every survivor in exactly one segment, probes, arm endpoints, weight / depth / gene "
-    "over all spanned input bins, log2 over survivors). The per-arm fan-out of none / haar is model-checked: a virtual "
+    "over all spanned input bins, log2 over survivors); the same clauses are applied to the second segmentation in every short lineage "
+    "(a table object segmented, then the object or a copy / masked subset / drop_low_coverage of it segmented again). The per-arm fan-out of none / haar is model-checked: a virtual "
     "ProcessPoolExecutor enumerates every schedule for 2-4 arm tasks and every schedule's result must satisfy the same clauses and "
     "equal the serial table; real pools of 2 / 3 / 16 conform.",
     "note": "Trusted: the model in models/segments.py (cross-examined by selftest/segments.py); for groups of more than 50 bins the outlier "
